@@ -31,6 +31,18 @@ Theorem c09_isometry_comp (A B C : IPS) (f : A -> B) (g : B -> C) :
 Proof. exact (isometry_comp A B C f g). Qed.
 Print Assumptions c09_isometry_comp.
 
+(** "coefficients are uniquely defined": a map preserving inner products is injective (no linearity needed), preserves distances,
+    and its transpose recovers the coefficients.  Instance: IsoInj.iso_instance. *)
+From SymfcV Require IsoInj.
+Theorem c09_coefficients_unique (U W : IPS) (E : U -> W) :
+  (forall x y, ip (E x) (E y) = ip x y) -> forall x y, E x = E y -> x = y.
+Proof. exact (IsoInj.iso_injective U W E). Qed.
+Print Assumptions c09_coefficients_unique.
+Theorem c09_transpose_recovers_coefficients (U W : IPS) (E : U -> W) (Et : W -> U) :
+  (forall x y, ip (E x) (E y) = ip x y) -> (forall x w, ip (E x) w = ip x (Et w)) -> forall x, Et (E x) = x.
+Proof. intros Hi Ha. exact (IsoInj.transpose_recovers_coefficients U W E Hi Et Ha). Qed.
+Print Assumptions c09_transpose_recovers_coefficients.
+
 (** eigenvectors re-assembled from different blocks are orthogonal, and block-wise solving returns
     exactly the unit eigenvectors (so orthonormal block bases assemble to an orthonormal basis) *)
 Theorem c09_block_assembly (W W1 W2 : IPS) (J1 : W1 -> W) (J1t : W -> W1) (J2 : W2 -> W) (J2t : W -> W2) (M : W -> W) (M1 : W1 -> W1) (M2 : W2 -> W2) :
